@@ -82,7 +82,10 @@ class Objs:
         return bs[var % len(bs)]()
 
     def inv(self, x):
-        return (CANON[self.p].index(x) - self.rot) % 8
+        try:
+            return (CANON[self.p].index(x) - self.rot) % 8
+        except ValueError:      # an object that is no key/value of the case (seeded C18-j: a default of the seed's class)
+            return FOREIGN
 
     def args(self, t, idxs):
         """the Python arguments of step t (argument j made by builder number octal digit j of vars[t])"""
@@ -111,6 +114,119 @@ def sim_step(pairs, o):
         return [[a, b] for a, b in pairs if a != o[1]]
     return [[a, b] for a, b in pairs if b != o[1]]
 SEED_KINDS = ["dict", "OrderedDict", "UserDict"]      # the Python class of a seed mapping (the model sees a mapping)
+FOREIGN = 99                    # model integer of an observed object that is no key/value of the case
+
+
+# ---- exotic classes of the constructor argument (seeded C18-j) ---------------------------------------------------
+# The constructor takes a Mapping.  Whatever its class -- a dict subclass that answers absent keys (defaultdict,
+# Counter, a subclass with __missing__ or an overridden __getitem__), an ordered / layered / read-only / pure-ABC
+# mapping -- the map built from it must be an ordinary BiMap: to the model every one of them is the mapping its
+# items() shows.  All of them are coherent mappings (items / values / keys / len / [] of present keys agree).
+class _SubDict(dict):
+    pass
+
+
+class _MissDict(dict):          # answers absent keys without storing them; copy() keeps the class (as defaultdict does)
+    dflt = 0
+
+    def __missing__(self, key):
+        return self.dflt
+
+    def copy(self):
+        c = type(self)(self)
+        c.dflt = self.dflt
+        return c
+
+
+class _MissStoreDict(_MissDict):  # ... and stores the answer, like defaultdict
+    def __missing__(self, key):
+        self[key] = self.dflt
+        return self.dflt
+
+
+class _GetDict(dict):           # [] of an absent key answers a default (present keys: exactly dict's answer)
+    dflt = 0
+
+    def __getitem__(self, key):
+        return dict.get(self, key, self.dflt)
+
+    def copy(self):
+        c = type(self)(self)
+        c.dflt = self.dflt
+        return c
+
+
+def _abc_mapping(d):
+    import collections.abc
+
+    class _AbcMap(collections.abc.Mapping):     # nothing but the three abstract methods, backed by d
+        def __getitem__(self, key):
+            return d[key]
+
+        def __iter__(self):
+            return iter(d)
+
+        def __len__(self):
+            return len(d)
+    return _AbcMap()
+
+
+EXOTIC_KINDS = ["defaultdict:int", "defaultdict:str", "defaultdict:tuple", "defaultdict:list", "defaultdict:None",
+                "defaultdict:v0", "defaultdict:v1", "Counter", "ChainMap", "ChainMap2", "MappingProxyType", "SubDict",
+                "MissDict:v0", "MissDict:v1", "MissStoreDict:v0", "GetDict:v0", "GetDict:v1", "AbcMapping",
+                "OrderedDict", "UserDict"]
+
+
+def mkseed(kind, d, ob):
+    """(the mapping handed to BiMap, what the caller writes through) for the plain dict d of a seed"""
+    import collections
+    import types
+    if kind == "dict":
+        return d, d
+    if kind == "OrderedDict":
+        m = collections.OrderedDict(d)
+    elif kind == "UserDict":
+        m = collections.UserDict(d)
+    elif kind.startswith("defaultdict:"):
+        f = kind.split(":")[1]
+        fac = {"int": int, "str": str, "tuple": tuple, "list": list, "None": None}.get(f, None)
+        if f[0] == "v":                                   # the default is value number 0 / 1 of the case
+            i = int(f[1:])
+            fac = lambda: ob.py(i)
+        m = collections.defaultdict(fac, d)
+    elif kind == "Counter":
+        m = collections.Counter(d)
+    elif kind == "ChainMap":
+        m = collections.ChainMap(d)
+    elif kind == "ChainMap2":                             # the pairs spread over two layers
+        its = list(d.items())
+        m = collections.ChainMap(dict(its[0::2]), dict(its[1::2]))
+        return m, m
+    elif kind == "MappingProxyType":
+        return types.MappingProxyType(d), d
+    elif kind == "AbcMapping":
+        return _abc_mapping(d), d
+    elif kind == "SubDict":
+        m = _SubDict(d)
+    else:
+        cls, f = kind.split(":")
+        m = {"MissDict": _MissDict, "MissStoreDict": _MissStoreDict, "GetDict": _GetDict}[cls](d)
+        m.dflt = ob.py(int(f[1:]))
+    return m, m
+
+
+def seed_write(w, o0, args):
+    """the caller's write to its own mapping"""
+    import collections
+    layers = w.maps if isinstance(w, collections.ChainMap) else [w]
+    if o0 == "SeedSet":
+        w[args[0]] = args[1]
+    elif o0 == "SeedDel":
+        for m in layers:
+            m.pop(args[0], None)
+    else:
+        for m in layers:
+            m.clear()
 
 
 def all_ops(nk, nv):
@@ -174,7 +290,13 @@ class C18(fw.Prop):
             "instances, frozensets), every argument of every operation and every lookup of the observation is "
             "built anew by a builder chosen per argument, observed objects are mapped back by ==; exhaustive = all "
             "18^2 histories over 2x2 with the second step using other objects than the first, per palette and pair "
-            "of classes; random single-map histories (35 % of steps re-insert a live pair) and worlds")
+            "of classes; random single-map histories (35 % of steps re-insert a live pair) and worlds.  Exotic "
+            "constructor arguments: the mapping handed to BiMap(...) is a defaultdict (factories int / str / tuple / "
+            "list / None / a value of the case), Counter, ChainMap (one / two layers), MappingProxyType, OrderedDict, "
+            "UserDict, a bare collections.abc.Mapping, dict subclasses (plain, with __missing__ answering or answering "
+            "and storing, with an overridden __getitem__; copy() keeps the class); exhaustive = every class x 3 "
+            "initial mappings x every single step over 3x3, plus a non-injective and an empty mapping of every "
+            "class; random single-map histories and worlds in which half of the steps delete (mostly absent keys)")
     trusted = ["keys/values are modelled as an arbitrary type with decidable equality; Python's == / hash "
                "on the sampled objects (0, '', (), 1, 'a', (0,), '0', 2, their cross-type / subclass equals, and the "
                "run-time built tuples / strings / big ints / dataclass instances / frozensets of PAL1) is assumed "
@@ -200,7 +322,34 @@ class C18(fw.Prop):
             W([two, [[0, 1], [1, 1]]], 2, [["New", 0, ["seed", 1]], ["New", 0, ["seed", 0]], ["New", 0, ["seed", 1]],
                                            ["SeedDel", 1, 0], ["New", 1, ["seed", 1]]],
               skinds=["UserDict", "OrderedDict"]),                                       # rejected construction changes nothing
-        ] + self._corpus_eqobj()
+        ] + self._corpus_eqobj() + self._corpus_exotic()
+
+    def _corpus_exotic(self):
+        """seeded C18-j: the forward dict kept the CLASS of the constructor argument (fwd.copy()), a defaultdict's
+        __missing__ answered -- and stored -- absent keys"""
+        ab = [[0, 3], [1, 0]]                                  # 0 -> 1, '' -> 0 : the falsy 0 is a live right value
+        H = lambda kind, ops, init=ab, nk=3, nv=4: {"nk": nk, "nv": nv, "init": [list(x) for x in init], "ops": ops,
+                                                    "ikind": kind}
+        res = [
+            H("defaultdict:int", [["DelL", 2]]),              # the demo: delete_left('zz') raised nothing, removed bck[0]
+            H("defaultdict:int", [["DelItem", 2]]),
+            H("defaultdict:int", []),                         # the lookups of the observation alone
+            H("defaultdict:int", [["DelL", 2]], init=[[0, 3]]),      # no pair owns the default
+            H("defaultdict:list", [["DelL", 2]]),             # an unhashable default
+            H("Counter", [["DelL", 2]]),                      # answers 0 without storing; its `del` never raises
+            H("Counter", [["DelItem", 2], ["InsL", 2, 0]]),
+            H("MissDict:v0", [["DelL", 2]]),
+            H("MissStoreDict:v0", [["DelL", 2]]),
+            H("GetDict:v0", [["DelL", 2]]),
+            H("OrderedDict", [["DelL", 2], ["InsR", 0, 2]]),
+            H("defaultdict:int", [], init=[[0, 1], [1, 1]]),  # non-injective: rejected whatever the class
+        ]
+        for kind in ("defaultdict:int", "Counter", "ChainMap2", "MappingProxyType", "AbcMapping"):
+            res.append(W([ab], 2, [["New", 0, ["seed", 0]], ["Op", 0, ["DelL", 2]], ["New", 1, ["map", 0]],
+                                   ["Op", 1, ["DelItem", 2]], ["SeedSet", 0, 2, 1], ["SeedDel", 0, 0],
+                                   ["New", 1, ["seed", 0]], ["Op", 1, ["DelL", 0]], ["SeedClear", 0]],
+                         nk=3, nv=4, skinds=[kind]))
+        return res
 
     def _corpus_eqobj(self):
         """seeded C18-g: 'is the displaced entry the one just written' decided by identity instead of equality"""
@@ -273,7 +422,84 @@ class C18(fw.Prop):
 
     def generate(self, rng, tier, ctx):
         # the three streams are drawn one after the other: a later stream never changes the cases of an earlier one
-        return self._gen_single(rng, tier, ctx) + self._gen_world(rng, tier, ctx) + self._gen_eqobj(rng, tier, ctx)
+        return (self._gen_single(rng, tier, ctx) + self._gen_world(rng, tier, ctx) + self._gen_eqobj(rng, tier, ctx)
+                + self._gen_exotic(rng, tier, ctx))
+
+    def _gen_exotic(self, rng, tier, ctx):
+        """the constructor argument is a mapping of an exotic class (EXOTIC_KINDS); afterwards absent keys are
+        looked up (every observation does) and deleted (every second random step is a deletion)"""
+        cases = []
+        u33 = all_ops(3, 3)
+        inits = ([[0, 0]], [[0, 1], [1, 0]], [[2, 2], [0, 1]])
+        for kind in EXOTIC_KINDS:
+            for init in inits:
+                for o in u33:
+                    cases.append({"nk": 3, "nv": 3, "init": [list(x) for x in init], "ops": [list(o)], "ikind": kind})
+            cases.append({"nk": 2, "nv": 2, "init": [[0, 0], [1, 0]], "ops": [], "ikind": kind})       # rejected
+            for o in (["DelL", 0], ["DelItem", 0], ["DelR", 0], ["InsL", 0, 0]):                       # `fwd or {}`
+                cases.append({"nk": 2, "nv": 2, "init": [], "ops": [o, ["DelL", 1]], "ikind": kind})
+        scopes = [f"exotic constructor arguments: {len(EXOTIC_KINDS)} mapping classes x 3 initial mappings x each of the "
+                  f"{len(u33)} steps over 3x3; a non-injective and an empty mapping of every class"]
+        if tier != "quick":
+            for kind in EXOTIC_KINDS:
+                for h in itertools.product(u33, repeat=2):
+                    cases.append({"nk": 3, "nv": 3, "init": [[0, 1], [1, 0]], "ops": [list(o) for o in h], "ikind": kind})
+            scopes.append(f"exotic constructor arguments: {len(EXOTIC_KINDS)} classes x all {len(u33)}^2 histories over 3x3 "
+                          f"from {{0:1, 1:0}}")
+        ctx.stats["exhaustive_scopes"] = ctx.stats.get("exhaustive_scopes", []) + scopes
+
+        def pick(u, nk, nv):
+            if rng.random() < 0.5:
+                x = rng.random()
+                return ["DelL", rng.randrange(nk)] if x < 0.4 else ["DelItem", rng.randrange(nk)] if x < 0.7 \
+                    else ["DelR", rng.randrange(nv)]
+            return list(rng.choice(u))
+        n = 250 if tier == "quick" else 2500
+        for _ in range(n):
+            nk, nv = rng.randint(2, 6), rng.randint(1, 6)
+            ks = rng.sample(range(nk), rng.randint(0, nk - 1))              # at least one absent key
+            if rng.random() < 0.9:
+                init = [[k, v] for k, v in zip(ks, rng.sample(range(nv), min(len(ks), nv)))]
+            else:
+                init = [[k, rng.randrange(nv)] for k in ks]
+            u = all_ops(nk, nv)
+            ops = [pick(u, nk, nv) for _t in range(rng.randint(1, 20))]
+            c = {"nk": nk, "nv": nv, "init": init, "ops": ops, "ikind": rng.choice(EXOTIC_KINDS)}
+            if rng.random() < 0.5:
+                c.update({"pal": rng.randrange(2), "rot": rng.randrange(8), "vars": [rng.randrange(64) for _o in ops],
+                          "look": rng.randrange(8), "ivar": rng.randrange(8)})
+            cases.append(c)
+        n = 150 if tier == "quick" else 1200
+        for _ in range(n):
+            nk, nv = rng.randint(2, 5), rng.randint(2, 5)
+            ns, nm = rng.randint(1, 2), 2
+            seeds = []
+            for _s in range(ns):
+                ks = rng.sample(range(nk), rng.randint(0, nk - 1))
+                if rng.random() < 0.9:
+                    seeds.append([[k, v] for k, v in zip(ks, rng.sample(range(nv), min(len(ks), nv)))])
+                else:
+                    seeds.append([[k, rng.randrange(nv)] for k in ks])
+            mops, ops = all_ops(nk, nv), []
+            for t in range(rng.randint(2, 16)):
+                x = rng.random()
+                if x < (0.8 if t < 2 else 0.15):
+                    y = rng.random()
+                    src = ["seed", rng.randrange(ns)] if y < 0.8 else ["map", rng.randrange(nm)] if y < 0.95 else ["none"]
+                    ops.append(["New", rng.randrange(nm), src])
+                elif x < 0.8:
+                    ops.append(["Op", rng.randrange(nm), pick(mops, nk, nv)])
+                else:
+                    s_ = rng.randrange(ns)
+                    y = rng.random()
+                    ops.append(["SeedSet", s_, rng.randrange(nk), rng.randrange(nv)] if y < 0.6
+                               else ["SeedDel", s_, rng.randrange(nk)] if y < 0.9 else ["SeedClear", s_])
+            c = W(seeds, nm, ops, nk=nk, nv=nv, skinds=[rng.choice(EXOTIC_KINDS) for _s in range(ns)])
+            if rng.random() < 0.4:
+                c.update({"pal": rng.randrange(2), "rot": rng.randrange(8), "vars": [rng.randrange(64) for _o in ops],
+                          "look": rng.randrange(8), "ivar": rng.randrange(8)})
+            cases.append(c)
+        return cases
 
     def _gen_eqobj(self, rng, tier, ctx):
         """histories in which every operation and every lookup is given an object that is EQUAL to the stored key /
@@ -401,9 +627,9 @@ class C18(fw.Prop):
         import collections
         from hugr.utils import BiMap, NotBijection
         nk, nv = case["nk"], case["nv"]
-        mk = {"dict": dict, "OrderedDict": collections.OrderedDict, "UserDict": collections.UserDict}
         ob = Objs(case)
-        seeds = [mk[kind](ob.mapping(sd, si)) for si, (sd, kind) in enumerate(zip(case["seeds"], case["skinds"]))]
+        sw = [mkseed(kind, ob.mapping(sd, si), ob) for si, (sd, kind) in enumerate(zip(case["seeds"], case["skinds"]))]
+        seeds, wr = [x[0] for x in sw], [x[1] for x in sw]
         slots = [None] * case["nm"]
         res = {"init": self._wobs(seeds, slots, nk, nv, ob), "steps": []}
         for t, o in enumerate(case["ops"]):
@@ -427,14 +653,7 @@ class C18(fw.Prop):
                     if bm is not None:
                         r = self._apply(bm, o[2][0], ob.args(t, o[2][1:]))
                 elif o[1] < len(seeds):
-                    sd = seeds[o[1]]
-                    args = ob.args(t, o[2:])
-                    if o[0] == "SeedSet":
-                        sd[args[0]] = args[1]
-                    elif o[0] == "SeedDel":
-                        sd.pop(args[0], None)
-                    else:
-                        sd.clear()
+                    seed_write(wr[o[1]], o[0], ob.args(t, o[2:]))
             except Exception as e:  # anything else is an observable difference
                 r = "Other:" + type(e).__name__
             res["steps"].append([r, self._wobs(seeds, slots, nk, nv, ob, t + 1)])
@@ -465,9 +684,13 @@ class C18(fw.Prop):
         nk, nv = case["nk"], case["nv"]
         ob = Objs(case)
         try:
-            bm = BiMap(ob.mapping(case["init"]))
+            bm = BiMap(mkseed(case.get("ikind", "dict"), ob.mapping(case["init"]), ob)[0])
         except NotBijection:
             return {"init": None, "steps": []}
+        except Exception as e:  # any other exception class: an observation that neither model nor spec can produce
+            inj = len({v for _k, v in case["init"]}) == len(case["init"])
+            return {"init": None if inj else {"items": [], "len": 0, "iter": [], "getr": [], "getl": [], "geti": []},
+                    "steps": [], "constructor_raised": type(e).__name__}
         res = {"init": self._obs(bm, nk, nv, ob), "steps": []}
         for t, o in enumerate(case["ops"]):
             name, args = o[0], ob.args(t, o[1:])
@@ -615,13 +838,18 @@ class C18(fw.Prop):
         if case["init"]:
             for i in range(len(case["init"])):
                 yield {**case, "init": case["init"][:i] + case["init"][i + 1:]}
+        if case.get("ikind", "dict") != "dict":
+            yield {k: v for k, v in case.items() if k != "ikind"}
 
     def distribution(self, cases, observations):
         d = {"histories": len(cases), "ops": {}, "keyerrors": 0, "notbijection_inits": 0, "max_len": 0,
              "world_histories": 0, "world_steps": {}, "world_seed_kinds": {}, "world_rejected_constructions": 0,
              "eqobj_histories": 0, "eqobj_palettes": {}, "eqobj_reinserts_of_a_present_pair": 0,
-             "eqobj_deletes_of_a_present_key": 0}
+             "eqobj_deletes_of_a_present_key": 0, "init_kinds": {}, "exotic_deletes_of_an_absent_key": 0}
         for c, o in zip(cases, observations):
+            if c.get("ikind") is not None:
+                d["init_kinds"][c["ikind"]] = d["init_kinds"].get(c["ikind"], 0) + 1
+                d["exotic_deletes_of_an_absent_key"] += sum(r == "KeyError" for r, _ob in o["steps"])
             d["max_len"] = max(d["max_len"], len(c["ops"]))
             if c.get("vars") is not None:
                 d["eqobj_histories"] += 1
